@@ -122,6 +122,7 @@ int run(int argc)
     vec<vec<int>> vv{}; vec<outer::inner::pair<int, long>> vp{};
     K k1; K k2(3); k1 = k2;
     auto l = [&](int x) -> int { return x * 2 + argc; };
+    auto l2 = [&](int x2) { return x2 == 1 || x2 == argc; }; bool after = argc == 2; if (argc) { after = argc == 1 ? true : after; }
     int x = tmax<int>(argc, 3) + k1(2) + l(1);
     int y = x > 2 ? ::glob : -x;
     if (x) { for (int i = 0; i < 3; ++i) { while (x--) { if (y) y++; } } } else y = 0;
@@ -131,7 +132,7 @@ int run(int argc)
     x = a / *p + a * *q; x = 0x1e + 5; double z = 1. + .5;
     switch (x) { case 1: { y++; } break; default: { y--; break; } }
     const char *s = R"(raw "x" \\ )" "tail"; char16_t cc = u'c';
-    return x + y + (eq ? 1 : 0) + static_cast<int>(z) + (int) sizeof(s) + (int) cc + (int) Col::G;
+    return x + y + (eq ? 1 : 0) + (l2(1) && after ? 1 : 0) + static_cast<int>(z) + (int) sizeof(s) + (int) cc + (int) Col::G;
 }
 """,
     "OC": """#include <stdbool.h>
